@@ -8,9 +8,7 @@
 #include <string>
 #include <vector>
 
-#ifdef C19_GUARD
 #include "guard.hpp"
-#endif
 
 typedef std::string Str; // may contain NUL
 typedef std::vector<Str> Toks;
@@ -20,12 +18,33 @@ typedef std::vector<Str> Toks;
 // accessible.  n == 0 gives a pointer whose first byte is already inaccessible.
 // `slot` keeps simultaneously live buffers of equal size apart in the guard build.
 // ---------------------------------------------------------------------------
+// Read-only mode (sub-checks for const inputs): while g_ro_mode is set every Exact gets a mapping of its own, flush
+// against a PROT_NONE page, in BOTH builds; freeze() then makes it PROT_READ, so a routine that patches its const
+// input (sentinel, temporary NUL) and restores it faults although a before/after comparison would see nothing.
+static bool g_ro_mode = false;
+struct RoMode
+{
+    RoMode() { g_ro_mode = true; }
+    ~RoMode() { g_ro_mode = false; }
+};
 struct Exact
 {
     char *p;
     size_t n;
+    guard::Region *own = nullptr; // a mapping of its own (read-only mode; guard build: sizes beyond the pool)
+    void use_own(int fill)
+    {
+        own = new guard::Region(n, true);
+        p = (char *)own->p;
+        if (n)
+            memset(p, fill, n);
+    }
+    void freeze()
+    {
+        if (own)
+            mprotect(own->base + 4096, own->maplen - 2 * 4096, PROT_READ);
+    }
 #ifdef C19_GUARD
-    guard::Region *own = nullptr; // sizes beyond the pool get a mapping of their own
     static guard::Region *region(size_t n, int slot)
     {
         static guard::Region *pool[8][160];
@@ -37,21 +56,25 @@ struct Exact
     }
     Exact(size_t n_, int slot, int fill = 0x5A) : n(n_)
     {
-        if (n < 160)
-            p = (char *)region(n, slot)->p;
-        else
+        if (n >= 160 || g_ro_mode)
         {
-            own = new guard::Region(n, true);
-            p = (char *)own->p;
+            use_own(fill);
+            return;
         }
+        p = (char *)region(n, slot)->p;
         if (n)
             memset(p, fill, n);
     }
     ~Exact() { delete own; }
 #else
-    char *blk;
+    char *blk = nullptr;
     Exact(size_t n_, int /*slot*/, int fill = 0x5A) : n(n_)
     {
+        if (g_ro_mode)
+        {
+            use_own(fill);
+            return;
+        }
         if (n)
         {
             blk = (char *)malloc(n);
@@ -64,7 +87,11 @@ struct Exact
             p = blk + 8; // first byte of the right redzone
         }
     }
-    ~Exact() { free(blk); }
+    ~Exact()
+    {
+        free(blk);
+        delete own;
+    }
 #endif
     Exact(const Exact &) = delete;
     Exact &operator=(const Exact &) = delete;
@@ -88,6 +115,16 @@ struct CS : Exact
         p[s.size()] = 0;
     }
 };
+
+// a C string that lives for the whole run in read-only memory, terminator = last accessible byte (both builds)
+static inline const char *frozen_cstr(const Str &s)
+{
+    guard::Region *r = new guard::Region(s.size() + 1, true);
+    memcpy(r->p, s.data(), s.size());
+    r->p[s.size()] = 0;
+    mprotect(r->base + 4096, r->maplen - 2 * 4096, PROT_READ);
+    return (const char *)r->p;
+}
 
 // ---------------------------------------------------------------------------
 // printable forms
